@@ -27,6 +27,7 @@ import (
 	"fmt"
 	"math/big"
 	"reflect"
+	"strconv"
 	"strings"
 	"testing"
 
@@ -83,6 +84,7 @@ type c08Obs struct {
 	StateEq  bool     `json:"state_eq"`
 	CoreEq   bool     `json:"core_eq"`
 	PanicOOG bool     `json:"panic_oog"`
+	Cost     string   `json:"cost"` // gas the same call consumes with ample gas (forwarded − handed back) when it succeeds then; "" otherwise
 	PanicInt bool     `json:"panic_int"` // sdkmath "integer overflow" (bank supply beyond 256 bits)
 	Method   string   `json:"method"`
 	UnpackOK bool     `json:"unpack_ok"`
@@ -223,7 +225,29 @@ func note(s string) string {
 	return s
 }
 
+const ampleGas uint64 = 8_000_000
+
+// runCase runs the call and, on a second branch of the world, the same call with ample gas: what
+// that one is charged is the call's real cost ("gas charged = gas consumed" is judged against it).
 func (w *world) runCase(in c08In) c08Obs {
+	obs := w.runOnce(in)
+	if c, ok := w.measure(in); ok {
+		obs.Cost = strconv.FormatUint(c, 10)
+	}
+	return obs
+}
+
+func (w *world) measure(in c08In) (uint64, bool) {
+	ref := in
+	ref.Gas = ampleGas
+	r := w.runOnce(ref)
+	if r.Reached && r.Class == "ok" && r.Fwd >= r.Left {
+		return r.Fwd - r.Left, true
+	}
+	return 0, false
+}
+
+func (w *world) runOnce(in c08In) c08Obs {
 	data, _ := hex.DecodeString(in.Data)
 	value, ok := new(big.Int).SetString(in.Value, 10)
 	if !ok || value.Sign() < 0 {
@@ -634,6 +658,30 @@ func (g *gen) gasFor(pc int, data []byte, value *big.Int, kind string) uint64 {
 		}
 		return x
 	}
+	cost, hasCost := uint64(0), false
+	if g.r.Chance(1, 2) {
+		cost, hasCost = w.measure(c08In{PC: pc, Kind: kind, Value: value.String(), Data: hex.EncodeToString(data)})
+	}
+	if hasCost && cost > req {
+		// sweep around the call's real cost: every G below it must run out of gas
+		switch g.r.Pick(10, 25, 20, 20, 15, 10) {
+		case 0:
+			return cost
+		case 1:
+			return cost - 1
+		case 2:
+			return cost - req/2
+		case 3:
+			return cost - req
+		case 4:
+			if cost > req+1 {
+				return cost - req - 1
+			}
+			return cost - 1
+		default:
+			return req + uint64(g.r.Intn(int(cost-req)))
+		}
+	}
 	switch g.r.Pick(52, 8, 8, 14, 10, 4, 4) {
 	case 0:
 		return 3_000_000
@@ -738,6 +786,24 @@ func (w *world) openers() []c08In {
 			}
 			for _, kind := range []string{"top", "call", "static", "delegate", "callcode", "nested"} {
 				out = append(out, c08In{pc, kind, "0", 3_000_000, hex.EncodeToString(bz), "opener/matrix-" + kind})
+			}
+			// forwarded gas around the call's real cost (measured with ample gas) and its RequiredGas
+			for _, kind := range []string{"top", "call"} {
+				if w.storeKeys == nil {
+					break // bare world of the DeliverTx driver: nothing to measure on
+				}
+				probe := c08In{PC: pc, Kind: kind, Value: "0", Data: hex.EncodeToString(bz)}
+				cost, ok := w.measure(probe)
+				req := uint64(len(bz)-4)*3 + 1000
+				if !abiOf(pc).Methods[name].IsConstant() {
+					req = uint64(len(bz)-4)*30 + 2000
+				}
+				if !ok || cost <= req+1 {
+					continue
+				}
+				for _, gq := range []uint64{cost, cost - 1, cost - req/2, cost - req, cost - req - 1} {
+					out = append(out, c08In{pc, kind, "0", gq, hex.EncodeToString(bz), "opener/gas-sweep-" + kind})
+				}
 			}
 		}
 	}
